@@ -54,12 +54,18 @@ func GLSplit(f func(float64) float64, a, b float64, breaks []float64, panels int
 // GLAdaptive integrates f over [a,b], bisecting until one panel and two
 // half panels agree to tol (absolute) or depth is exhausted.
 func GLAdaptive(f func(float64) float64, a, b, tol float64) float64 {
+	// bounded work: at most maxPanels panel evaluations, whatever f does
+	// (a NaN or infinite integrand can never "converge")
+	const maxPanels = 1 << 16
+	panels := 0
 	var rec func(a, b, whole float64, depth int) float64
 	rec = func(a, b, whole float64, depth int) float64 {
 		m := (a + b) / 2
 		l, r := GL(f, a, m, 1), GL(f, m, b, 1)
-		if depth <= 0 || abs(l+r-whole) <= tol {
-			return l + r
+		panels += 2
+		s := l + r
+		if depth <= 0 || panels > maxPanels || s != s || s-s != 0 || abs(s-whole) <= tol {
+			return s
 		}
 		return rec(a, m, l, depth-1) + rec(m, b, r, depth-1)
 	}
